@@ -166,17 +166,32 @@ def pad_dims(w, h, d, dh):
 
 
 def rand_dims(rng, maxw, maxh, maxd, maxdh, maxpix):
-    """dims with the PADDED picture no larger than maxpix samples (the list model is quadratic)"""
+    """dims with the PADDED picture no larger than maxpix samples (the list model is quadratic);
+    depths are uniform, the cap is raised so that two scale units always fit"""
+    d, dh = rng.randrange(0, maxd + 1), rng.randrange(0, maxdh + 1)
+    cap = max(maxpix, 2 * (1 << (d + dh)) * (1 << d))
     while True:
-        d, dh = rng.randrange(0, maxd + 1), rng.randrange(0, maxdh + 1)
         lw, lh = rng.randrange(1, maxw + 1), rng.randrange(1, maxh + 1)
         cw, ch = rng.randrange(1, maxw + 1), rng.randrange(1, maxh + 1)
         ok = True
         for (w, h) in ((lw, lh), (cw, ch)):
             pw, ph = pad_dims(w, h, d, dh)
-            ok = ok and pw * ph <= maxpix
+            ok = ok and pw * ph <= cap
         if ok:
             return (lw, lh, cw, ch, d, dh)
+
+
+def load_corpus(nf):
+    """corpus/C11/*.json: {wi, wiho, dims:[lw,lh,cw,ch,d,dh], comp, pic} (samples as decimal strings)"""
+    import glob
+    import json
+    out = []
+    here = os.path.dirname(os.path.dirname(os.path.dirname(os.path.abspath(__file__))))
+    for f in sorted(glob.glob(os.path.join(here, "corpus", "C11", "*.json"))):
+        d = json.load(open(f))
+        if d["wi"] < nf and d["wiho"] < nf:
+            out.append((d["wi"], d["wiho"], tuple(d["dims"]), d["comp"], [[int(v) for v in r] for r in d["pic"]]))
+    return out
 
 
 def bucket(dims, comp):
@@ -246,15 +261,19 @@ def run(ctx):
                        "differs on %r" % [meta[i] for i in bad[:3]])
 
     # ---- (b) forward cases ------------------------------------------------------------
-    nfwd = ctx.pick(147, 980)
+    nfwd = ctx.pick(98, 588)
     cases, meta = [], []
     fails = []
-    for i in range(nfwd):
-        wi, wiho = pairs[i % len(pairs)]
-        dims = rand_dims(rng, 20, 20, 3, 3, 640 if rng.random() < 0.8 else 1600)
-        comp = rng.randrange(3)
-        w, h = (dims[0], dims[1]) if comp == 0 else (dims[2], dims[3])
-        pic = rand_arr(rng, h, w)
+    corpus = load_corpus(nf)
+    for i in range(-len(corpus), nfwd):
+        if i < 0:  # corpus of past failures / hand-picked edge cases first
+            wi, wiho, dims, comp, pic = corpus[i + len(corpus)]
+        else:
+            wi, wiho = pairs[i % len(pairs)]
+            dims = rand_dims(rng, 20, 20, 3, 3, 400 if rng.random() < 0.8 else 1024)
+            comp = rng.randrange(3)
+            w, h = (dims[0], dims[1]) if comp == 0 else (dims[2], dims[3])
+            pic = rand_arr(rng, h, w)
         try:
             st, padded, ct, syn, out = py_forward(I, wi, wiho, dims, comp, pic)
         except Exception as e:
@@ -266,10 +285,10 @@ def run(ctx):
             "None" if syn == padded else "(Some %s)" % carr(syn), "None" if out == pic else "(Some %s)" % carr(out)))
         meta.append((wi, wiho, dims, comp, pic))
         ctx.count(1, key=("fwd", i) if dims[4] + dims[5] > 0 else None, bucket=bucket(dims, comp))
-        if i < 2:
+        if 0 <= i < 2:
             ctx.sample({"wavelet_index": wi, "wavelet_index_ho": wiho, "dims(lw,lh,cw,ch,d,dh)": dims, "comp": COMPS[comp],
                         "pic_first_row": [str(v) for v in pic[0]]})
-    bad = ctx.coq_check_cases("fwd", imports, "chk_fwd tbl", cases, shard=ctx.pick(10, 14), defs=tdef, timeout=900,
+    bad = ctx.coq_check_cases("fwd", imports, "chk_fwd tbl", cases, shard=ctx.pick(7, 14), defs=tdef, timeout=900,
                               ty="(Z * Z) * (Z * Z * Z * Z * Z * Z) * Z * arr * arr * coeffs * option arr * option arr")
     for i in (bad or []):
         mism_inputs.append(meta[i])
@@ -277,14 +296,15 @@ def run(ctx):
         ctx.obligation("corr:dwt/idwt/padding model agrees with implementation, sub-band shapes = Gen.SliceSizes (forward cases)", False, "corr-shard",
                        "differs on (wi, wiho, dims, comp) = %r" % [meta[i][:4] for i in bad[:5]])
     # ---- (c) inverse cases on independent coefficients -----------------------------------
-    ninv = ctx.pick(98, 490)
+    ninv = ctx.pick(49, 294)
     cases, meta = [], []
     for i in range(ninv):
         wi, wiho = pairs[(i * 5 + 3) % len(pairs)]
         d, dh = rng.randrange(0, 4), rng.randrange(0, 4)
+        cap = max(ctx.pick(320, 640), (1 << d) * (1 << (d + dh)))  # the smallest shape is always allowed
         while True:
             h0, w0 = rng.randrange(1, 6), rng.randrange(1, 6)
-            if (h0 << d) * (w0 << (d + dh)) <= 640:
+            if (h0 << d) * (w0 << (d + dh)) <= cap:
                 break
         kind = rng.randrange(5)
         dc = rand_arr(rng, h0, w0, kind)
@@ -302,7 +322,7 @@ def run(ctx):
         cases.append("((%s, %s), (%s, %s), %s, %s, %s)" % (cz(wi), cz(wiho), cz(d), cz(dh), ccoeffs(ct), carr(syn_c), ccoeffs(ct2)))
         meta.append((wi, wiho, d, dh))
         ctx.count(1, key=("inv", i) if d + dh > 0 else None, bucket="inv d=%d,dh=%d" % (d, dh))
-    bad = ctx.coq_check_cases("inv", imports, "chk_inv tbl", cases, shard=ctx.pick(10, 14), defs=tdef, timeout=900,
+    bad = ctx.coq_check_cases("inv", imports, "chk_inv tbl", cases, shard=ctx.pick(7, 14), defs=tdef, timeout=900,
                               ty="(Z * Z) * (Z * Z) * coeffs * arr * coeffs")
     if bad:
         ctx.obligation("corr:idwt model agrees with implementation on independent coefficients", False, "corr-shard",
@@ -336,6 +356,7 @@ def run(ctx):
             d, dh = (k // 7) % 4, (k // 3) % 4
             k += 1
             jobs.append((wi, wiho, (w, h, w, h, d, dh), 0, rand_arr(rng, h, w, 3)))
+    jobs = list(corpus) + jobs
     nw = max(1, min(12, (os.cpu_count() or 2) - 2))
     chunks = [jobs[i::nw * 4] for i in range(nw * 4)]
     results = []
